@@ -227,6 +227,148 @@ def descriptor_reads_back(self, result):
 
 
 # --------------------------------------------------------------------------------------------------
+# C04  conjugation
+
+
+@_monitor("C04.name.matches_table_oracle")
+def conj_matches_table_oracle(name, pdg_name, result):
+    from . import names  # noqa: PLC0415
+
+    if not isinstance(name, str):
+        return
+    exp = names.conj_pdg(name) if pdg_name else names.conj(name)
+    if exp is None:
+        COUNTS["C04.name.table_ambiguous"] += 1
+        return
+    if result != exp:
+        record("C04", "conj-name:" + ("pdg" if pdg_name else "evtgen") + ":" + names.kind(name if not pdg_name else names.tables()["pdg2evt"].get(name, "")),
+               f"charge_conjugate_name({name!r}, pdg_name={pdg_name}) = {result!r}, table oracle says {exp!r}", {"name": name, "pdg_name": pdg_name})
+
+
+@_monitor("C04.name.involution_or_wrapped")
+def conj_is_involution_or_wrapped(name, pdg_name, result):
+    if not isinstance(name, str):
+        return
+    if result == f"ChargeConj({name})":
+        return
+    back = _REAL["charge_conjugate_name"](result, pdg_name)
+    if back != name:
+        record("C04", "conj-name:not-involution", f"conj(conj({name!r})) = {back!r} (via {result!r}, pdg_name={pdg_name})", {"name": name, "pdg_name": pdg_name})
+
+
+@_monitor("C04.daughters.each_particle_with_multiplicity")
+def daughters_conjugated(self, pdg_name, result):
+    from . import names  # noqa: PLC0415
+
+    src = Counter({k: v for k, v in dict(self).items() if v > 0})
+    got = Counter({k: v for k, v in dict(result).items() if v > 0})
+    detail = {"daughters": dict(src), "pdg_name": pdg_name, "got": dict(got)}
+    if sum(got.values()) != sum(src.values()):
+        record("C04", "conj-daughters:size", f"{sum(src.values())} particles became {sum(got.values())}", detail)
+    exp = Counter()
+    for k, v in src.items():
+        c = names.conj_pdg(k) if pdg_name else names.conj(k)
+        if c is None:
+            COUNTS["C04.daughters.table_ambiguous"] += 1
+            return
+        exp[c] += v
+    if got != exp:
+        record("C04", "conj-daughters:content", f"conjugate of {dict(src)} is {dict(got)}, expected {dict(exp)}", detail)
+    if type(result) is not type(self):
+        record("C04", "conj-daughters:type", f"result type {type(result).__name__}", detail)
+
+
+def _snap_mode(self):
+    return (self.bf, dict(self.daughters), copy.deepcopy(self.metadata))
+
+
+@_monitor("C04.mode.bf_and_metadata_kept")
+def mode_conj_keeps_bf_and_metadata(self, pdg_name, result, OLD):
+    bf, ds, meta = OLD.before
+    detail = {"bf": bf, "daughters": ds, "metadata": repr(meta), "pdg_name": pdg_name}
+    if result.bf != bf:
+        record("C04", "conj-mode:bf", f"bf {bf!r} became {result.bf!r}", detail)
+    if result.metadata != meta:
+        record("C04", "conj-mode:metadata", f"metadata {meta!r} became {result.metadata!r}", detail)
+    if len(result) != sum(v for v in ds.values() if v > 0):
+        record("C04", "conj-mode:size", f"{sum(ds.values())} particles became {len(result)}", detail)
+    if (self.bf, dict(self.daughters), self.metadata) != OLD.before:
+        record("C04", "conj-mode:original-mutated", "charge_conjugate() changed the mode it was called on", detail)
+
+
+# --------------------------------------------------------------------------------------------------
+# C14  DescriptorFormat scoping: shadow stack keyed by context-object identity
+
+SHADOW: dict = {}
+
+
+def _snap_cfg(self):
+    from decaylanguage.utils import DescriptorFormat  # noqa: PLC0415
+
+    return dict(DescriptorFormat.config)
+
+
+@_monitor("C14.enter.installs_and_remembers")
+def enter_installs(self, OLD):
+    from decaylanguage.utils import DescriptorFormat  # noqa: PLC0415
+
+    SHADOW.setdefault(id(self), []).append(OLD.cfg)
+    if DescriptorFormat.config != self.new_config:
+        record("C14", "enter:format-not-installed", f"after __enter__ the format is {DescriptorFormat.config!r}, not {self.new_config!r}", None)
+
+
+@_monitor("C14.exit.restores_entry_format")
+def exit_restores(self):
+    from decaylanguage.utils import DescriptorFormat  # noqa: PLC0415
+
+    st = SHADOW.get(id(self))
+    if not st:
+        COUNTS["C14.exit.without_enter"] += 1
+        return
+    exp = st.pop()
+    if DescriptorFormat.config != exp:
+        record("C14", "exit:entry-format-not-restored", f"after __exit__ the format is {DescriptorFormat.config!r}; at entry it was {exp!r}", None)
+
+
+def _set_config_guard(real):
+    """A rejected pattern must leave the format unchanged (icontract does not look at state after a raise)."""
+    import functools  # noqa: PLC0415
+
+    @functools.wraps(real)
+    def set_config(decay_pattern, sub_decay_pattern):
+        from decaylanguage.utils import DescriptorFormat  # noqa: PLC0415
+
+        before = dict(DescriptorFormat.config)
+        COUNTS["C14.set_config.rejected_leaves_format"] += 1
+        try:
+            return real(decay_pattern, sub_decay_pattern)
+        except BaseException:
+            if DescriptorFormat.config != before:
+                record("C14", "set_config:rejected-pattern-changed-format", f"format {before!r} became {DescriptorFormat.config!r} although set_config raised", None)
+            raise
+
+    return set_config
+
+
+_REAL: dict = {}
+
+
+def rebind_everywhere(orig, new):
+    """`from m import f` bindings bypass a re-bound attribute: patch every decaylanguage module attribute that *is* orig."""
+    import sys  # noqa: PLC0415
+
+    n = 0
+    for mname, mod in list(sys.modules.items()):
+        if mod is None or not (mname == "decaylanguage" or mname.startswith("decaylanguage.")):
+            continue
+        for attr, val in list(vars(mod).items()):
+            if val is orig:
+                setattr(mod, attr, new)
+                n += 1
+    return n
+
+
+# --------------------------------------------------------------------------------------------------
 # arming
 
 
@@ -270,6 +412,28 @@ def arm(*groups):
             Y.DecayMode.to_dict = icontract.ensure(mode_to_dict_roundtrip, error=ContractBroken)(Y.DecayMode.to_dict)
         elif g == "to_string":
             Y.DecayChain.to_string = icontract.ensure(descriptor_reads_back, error=ContractBroken)(Y.DecayChain.to_string)
+        elif g == "conj":
+            import decaylanguage.dec.dec  # noqa: F401, PLC0415
+            import decaylanguage.utils.particleutils as PU  # noqa: PLC0415
+
+            orig = PU.charge_conjugate_name
+            _REAL["charge_conjugate_name"] = orig
+            f = icontract.ensure(conj_is_involution_or_wrapped, error=ContractBroken)(orig)
+            f = icontract.ensure(conj_matches_table_oracle, error=ContractBroken)(f)
+            f.cache_clear = orig.cache_clear
+            f.cache_info = orig.cache_info
+            COUNTS["C04.rebound_sites"] = rebind_everywhere(orig, f)
+            Y.DaughtersDict.charge_conjugate = icontract.ensure(daughters_conjugated, error=ContractBroken)(Y.DaughtersDict.charge_conjugate)
+            g2 = icontract.ensure(mode_conj_keeps_bf_and_metadata, error=ContractBroken)(Y.DecayMode.charge_conjugate)
+            Y.DecayMode.charge_conjugate = icontract.snapshot(_snap_mode, name="before")(g2)
+        elif g == "descriptor_format":
+            import decaylanguage.utils.utilities as UU  # noqa: PLC0415
+
+            DF = UU.DescriptorFormat
+            f = icontract.ensure(enter_installs, error=ContractBroken)(DF.__enter__)
+            DF.__enter__ = icontract.snapshot(_snap_cfg, name="cfg")(f)
+            DF.__exit__ = icontract.ensure(exit_restores, error=ContractBroken)(DF.__exit__)
+            DF.set_config = staticmethod(_set_config_guard(DF.set_config))
         else:
             raise KeyError(g)
 
